@@ -21,6 +21,13 @@ theorem delivered_emit (a : App) (evs : List Ev) :
     (a.emit evs).delivered = a.delivered ++ evs.filterMap Ev.payload := by
   simp [App.emit, App.delivered, List.filterMap_append]
 
+theorem writeEvents_cw (a : App) (r : Bytes) (kick : Bool) :
+    (writeEvents a r kick).filterMap Ev.cw = if kick then [] else [r] := by
+  cases kick <;> cases h : a.fcConsumer <;> simp [writeEvents, h, Ev.cw]
+
+theorem writeEvents_done (a : App) (r : Bytes) (kick : Bool) : (writeEvents a r kick).filterMap Ev.doneVal = [] := by
+  cases kick <;> cases h : a.fcConsumer <;> simp [writeEvents, h, Ev.doneVal]
+
 theorem consumerDone_spec (a : App) (k : Consumer) (w : Nat) :
     (consumerDone a k w).1.delivered = a.delivered ∧ (consumerDone a k w).1.inbound = a.inbound ∧
     (consumerDone a k w).1.consumer = a.consumer ∧ (consumerDone a k w).1.waiting = a.waiting := by
@@ -54,9 +61,9 @@ theorem writeToConsumer_spec (a : App) (k : Consumer) (r : Bytes) (kick : Bool) 
   simp only [writeToConsumer]
   obtain ⟨h1, h2, h3⟩ := writeToConsumer_aux
     { a with consumer := some { k with written := k.written + r.length },
-             log := a.log ++ [if kick then .ckick else .cwrite r] } k (k.written + r.length) k.expected
+             log := a.log ++ writeEvents a r kick } k (k.written + r.length) k.expected
   refine ⟨h1.trans ?_, h2.trans rfl, h3.trans rfl⟩
-  cases kick <;> simp [App.delivered, List.filterMap_append, Ev.payload]
+  cases kick <;> cases a.fcConsumer <;> simp [App.delivered, List.filterMap_append, Ev.payload, writeEvents]
 
 theorem fireRead_spec (a : App) (d : Reader) (r : Bytes) :
     (fireRead a d r).1.delivered = a.delivered ++ [r] ∧ (fireRead a d r).1.inbound = a.inbound ∧
@@ -100,6 +107,31 @@ theorem connectionLost_fields (a : App) :
   · refine ⟨?_, h2, h3, h4⟩
     rw [delivered_emit, h1]; simp [Ev.payload, App.delivered]
   · exact ⟨h1, h2, h3, h4⟩
+
+theorem attachConsumer_spec (a : App) (ex : Option Nat) (fc : Bool) (s rest : List Act) (ag : List Frame)
+    (hJ : DrainInv a (Frame.script (Act.consume ex s :: rest) :: ag) ∨
+          DrainInv a (Frame.script (Act.consumeFC ex s :: rest) :: ag)) :
+    (attachConsumer a ex fc s rest).1.surfaced = a.surfaced ∧
+    DrainInv (attachConsumer a ex fc s rest).1 ((attachConsumer a ex fc s rest).2 ++ ag) := by
+  have hJ' : DrainInv a ag := by
+    intro hc hne
+    rcases hJ with h | h
+    · have := h hc hne; simpa using this
+    · have := h hc hne; simpa using this
+  simp only [attachConsumer]
+  split
+  · exact ⟨by simp [App.surfaced, App.delivered, App.emit, List.filterMap_append, Ev.payload], hJ'⟩
+  · split
+    · refine ⟨?_, fun _ _ => by simp⟩
+      obtain ⟨w1, w2, _⟩ := writeToConsumer_spec
+        { a with consumer := some { cid := a.nextCid, written := 0, expected := ex, cb := none },
+                 nextCid := a.nextCid + 1, fcConsumer := fc, log := a.log ++ [.reg] }
+        { cid := a.nextCid, written := 0, expected := ex, cb := none } [] true
+      simp only
+      rw [App.surfaced, App.surfaced, w1, w2]
+      simp [App.delivered, List.filterMap_append, Ev.payload]
+    · refine ⟨?_, fun _ _ => by simp⟩
+      simp [App.surfaced, App.delivered, List.filterMap_append, Ev.payload]
 
 /-- what one step of the call stack does to the three things the order of delivery depends on -/
 theorem appStep_spec (a : App) (fr : Frame) (ag : List Frame) (hJ : DrainInv a (fr :: ag)) :
@@ -164,25 +196,22 @@ theorem appStep_spec (a : App) (fr : Frame) (ag : List Frame) (hJ : DrainInv a (
         have := hJ hc hne
         simp at this
         simp [this]
-      | consume ex s =>
+      | consume ex s => exact attachConsumer_spec a ex false s rest ag (.inl hJ)
+      | consumeFC ex s => exact attachConsumer_spec a ex true s rest ag (.inr hJ)
+      | pause =>
         simp only [appStep]
-        split
-        · refine ⟨by simp [App.surfaced, App.delivered, App.emit, List.filterMap_append, Ev.payload], ?_⟩
-          intro hc hne
-          have := hJ hc hne
-          simpa using this
-        · rename_i hnone
-          split
-          · refine ⟨?_, fun _ _ => by simp⟩
-            obtain ⟨w1, w2, _⟩ := writeToConsumer_spec
-              { a with consumer := some { cid := a.nextCid, written := 0, expected := ex, cb := none },
-                       nextCid := a.nextCid + 1, log := a.log ++ [.reg] }
-              { cid := a.nextCid, written := 0, expected := ex, cb := none } [] true
-            simp only
-            rw [App.surfaced, App.surfaced, w1, w2]
-            simp [App.delivered, List.filterMap_append, Ev.payload]
-          · refine ⟨?_, fun _ _ => by simp⟩
-            simp [App.surfaced, App.delivered, List.filterMap_append, Ev.payload]
+        refine ⟨by simp [App.surfaced, App.delivered, App.emit, List.filterMap_append, Ev.payload], ?_⟩
+        intro hc hne
+        have := hJ hc hne
+        simp at this
+        simp [this]
+      | resume =>
+        simp only [appStep]
+        refine ⟨by simp [App.surfaced, App.delivered, App.emit, List.filterMap_append, Ev.payload], ?_⟩
+        intro hc hne
+        have := hJ hc hne
+        simp at this
+        simp [this]
       | detach =>
         simp only [appStep]
         split
@@ -306,7 +335,7 @@ theorem writeToConsumer_weight (a : App) (k : Consumer) (r : Bytes) (kick : Bool
       ≤ 1 + szOpt k.cb :=
   writeToConsumer_weight_aux
     { a with consumer := some { k with written := k.written + r.length },
-             log := a.log ++ [if kick then .ckick else .cwrite r] } k { k with written := k.written + r.length }
+             log := a.log ++ writeEvents a r kick } k { k with written := k.written + r.length }
     (k.written + r.length) k.expected rfl rfl
 
 theorem fireRead_weight (a : App) (d : Reader) (r : Bytes) : agendaWeight (fireRead a d r).2 ≤ 1 + szOpt d.cb := by
@@ -326,6 +355,30 @@ theorem attachFirst_weight (id : Nat) (s : List Act) : ∀ ws : List Reader,
 
 theorem szList_cons (x : Act) (xs : List Act) : szList (x :: xs) = x.sz + szList xs := by
   simp [szList]
+
+theorem attachConsumer_decreases (a : App) (ex : Option Nat) (fc : Bool) (s rest : List Act) (ag : List Frame) :
+    potential (attachConsumer a ex fc s rest).1 ((attachConsumer a ex fc s rest).2 ++ ag) + 1 <
+      potential a ag + (1 + (5 + szList s + szList rest)) + 1 := by
+  simp only [potential_eq, agendaWeight_append]
+  simp only [attachConsumer]
+  split
+  · simp [App.emit, agendaWeight]; omega
+  · rename_i hnone
+    split
+    · obtain ⟨_, w2, w3⟩ := writeToConsumer_spec
+        { a with consumer := some { cid := a.nextCid, written := 0, expected := ex, cb := none },
+                 nextCid := a.nextCid + 1, fcConsumer := fc, log := a.log ++ [.reg] }
+        { cid := a.nextCid, written := 0, expected := ex, cb := none } [] true
+      have w5 := writeToConsumer_weight
+        { a with consumer := some { cid := a.nextCid, written := 0, expected := ex, cb := none },
+                 nextCid := a.nextCid + 1, fcConsumer := fc, log := a.log ++ [.reg] }
+        { cid := a.nextCid, written := 0, expected := ex, cb := none } [] true
+      simp only at w2 w3 w5 ⊢
+      rw [w2, w3, hnone, agendaWeight_append]
+      simp [agendaWeight, Frame.weight, consumerWeight, szOpt] at w5 ⊢
+      omega
+    · simp [hnone, agendaWeight, Frame.weight, consumerWeight, szOpt]
+      omega
 
 /-- every step of the call stack makes `potential` smaller -/
 theorem appStep_decreases (a : App) (fr : Frame) (ag : List Frame) :
@@ -369,25 +422,17 @@ theorem appStep_decreases (a : App) (fr : Frame) (ag : List Frame) :
         simp [appStep, Frame.weight, agendaWeight, szList_cons, Act.sz, waitWeight, szOpt]
         omega
       | consume ex s =>
-        simp only [appStep]
-        split
-        · simp [App.emit, Frame.weight, agendaWeight] <;> omega
-        · rename_i hnone
-          split
-          · obtain ⟨_, w2, w3⟩ := writeToConsumer_spec
-              { a with consumer := some { cid := a.nextCid, written := 0, expected := ex, cb := none },
-                       nextCid := a.nextCid + 1, log := a.log ++ [.reg] }
-              { cid := a.nextCid, written := 0, expected := ex, cb := none } [] true
-            have w5 := writeToConsumer_weight
-              { a with consumer := some { cid := a.nextCid, written := 0, expected := ex, cb := none },
-                       nextCid := a.nextCid + 1, log := a.log ++ [.reg] }
-              { cid := a.nextCid, written := 0, expected := ex, cb := none } [] true
-            simp only at w2 w3 w5 ⊢
-            rw [w2, w3, hnone, agendaWeight_append]
-            simp [agendaWeight, Frame.weight, consumerWeight, szList_cons, Act.sz, szOpt] at w5 ⊢
-            omega
-          · simp [hnone, agendaWeight, Frame.weight, consumerWeight, szList_cons, Act.sz, szOpt]
-            omega
+        have := attachConsumer_decreases a ex false s rest ag
+        simp only [potential_eq, agendaWeight_append, appStep, Frame.weight, szList_cons, Act.sz] at this ⊢
+        omega
+      | consumeFC ex s =>
+        have := attachConsumer_decreases a ex true s rest ag
+        simp only [potential_eq, agendaWeight_append, appStep, Frame.weight, szList_cons, Act.sz] at this ⊢
+        omega
+      | pause =>
+        simp [appStep, App.emit, Frame.weight, agendaWeight, szList_cons, Act.sz]
+      | resume =>
+        simp [appStep, App.emit, Frame.weight, agendaWeight, szList_cons, Act.sz]
       | detach =>
         simp only [appStep]
         split
